@@ -308,12 +308,28 @@ func handleDisagreement[T any](c *Ctx, s *Spec[T], t T) {
 	}
 	_, sig0, impl, model := sigOf(t)
 	cur := t
+	// a case on which the property itself fails must stay one while it is minimised (shrinking away the
+	// stage that turned a wrong label into a lost record would leave a mere label difference)
+	pf0 := s.PropertyFails == nil || s.PropertyFails(t, impl, model)
+	kind0 := "failing-input"
+	if !pf0 {
+		kind0 = "no-failing-input-found"
+	}
+	if key := kind0 + "/" + sig0; c.failCount[key] >= c.MaxFail {
+		// enough replays of this kind are written: count it, do not spend the minimisation time again
+		c.failCount[key]++
+		c.Count("failure:" + key)
+		return
+	}
 	if s.Shrink != nil && impl.Head() != "timeout" {
 		deadline := time.Now().Add(20 * time.Second)
 		for progress := true; progress && time.Now().Before(deadline); {
 			progress = false
 			for _, cand := range s.Shrink(cur) {
 				if bad, sig, i2, m2 := sigOf(cand); bad && sig == sig0 {
+					if pf0 && s.PropertyFails != nil && !s.PropertyFails(cand, i2, m2) {
+						continue
+					}
 					cur, impl, model = cand, i2, m2
 					progress = true
 					break
@@ -322,7 +338,7 @@ func handleDisagreement[T any](c *Ctx, s *Spec[T], t T) {
 		}
 	}
 	kind := "failing-input"
-	if s.PropertyFails != nil && !s.PropertyFails(cur, impl, model) {
+	if !pf0 {
 		kind = "no-failing-input-found"
 	}
 	cj, _ := json.Marshal(cur)
